@@ -736,7 +736,8 @@ def run(run):
         facts = {f.text() for f in F.local(la, None, sn)}
         # the save happens on the side of the check where message == envelope holds (a must-fact at the save, not merely the test's presence)
         eqs = ("powhsm_attestation['message'] == powhsm_attestation['envelope']", "powhsm_attestation['envelope'] == powhsm_attestation['message']")
-        ok = any(t in facts for t in eqs)
+        facts_x = facts | {_strip(t) for t in F.expanded(la, None, sn, PV, stop=("powhsm_attestation",))}
+        ok = any(_strip(t) in facts_x or t in facts_x for t in eqs)
         run.check("R1", ok, "health check message == envelope dominates the save", key="do_attestation|health-check", where=la.loc(),
                   message="the Ledger attestation is saved without the message/envelope equality check")
     ac = defs_of(A, la, "att_cert")
